@@ -1,5 +1,5 @@
 """C01 Reading a NONMEM model preserves its meaning: A1 PREDPP table, A2 numbering consistency,
-A3 interpreter exhaustiveness and operator table, A4 Fortran precedence (A5 lexer steals: see rules/C04.py)."""
+A3 interpreter exhaustiveness and operator table, A4 Fortran precedence, A5 lexer/parser table cross-check."""
 from __future__ import annotations
 
 import ast
@@ -116,6 +116,11 @@ def run(chk, repo, tier):
     A2 = chk.rule('A2', 'branch-internal compartment numbering consistent with comp_map and creation order', floor=25)
     A3 = chk.rule('A3', 'expression grammar rules have handlers; token -> handler callable == NM-TRAN table', floor=70)
     A4 = chk.rule('A4', 'operator precedence chain and associativity == Fortran', floor=9)
+    A5 = chk.rule('A5', 'LALR-accepted token sentences of the remaining record grammars are accepted when spelled out '
+                        '(lexer/parser table cross-check; theta/omega are checked under C04)', floor=300)
+    from rules.C04 import run_a5
+    run_a5(chk, A5, ['abbreviated_record.lark', 'code_record.lark', 'data_record.lark', 'option_record.lark',
+                     'simulation_record.lark'])
 
     am = repo.module(f'{NM}.advan')
     spec = json.loads((VERIF / 'specs/predpp.json').read_text())
